@@ -1675,6 +1675,12 @@ def _mod(name, table):
 
 class _Signature:
     def __init__(self, interp, f):
+        self.stub = False
+        if isinstance(f, Builtin) and getattr(f, 'stub', False):
+            self.stub = True
+            self.skip = 0
+            self.fv = None
+            return
         if isinstance(f, BoundMethod):
             f = f.func
             self.skip = 1
@@ -1689,6 +1695,10 @@ class _Signature:
         self.fv = f
 
     def sym_getattr(self, name, interp):
+        if self.stub:
+            if name == 'parameters':
+                return {'kw': ParamV('kw', 'VAR_KEYWORD')}
+            raise_('AttributeError', name)
         a = self.fv.node.args
         if name == 'parameters':
             out = {}
